@@ -50,9 +50,9 @@ def jobs(tier):
     J = [bjob('mkNot', 'Logic__mkNot__PTRef', H_NOT, proves=PROVES['mkNot'])]
     for nm in ('mkImpl', 'mkXor', 'mkIte', 'mkBinaryEq', 'mkAnd', 'mkOr', 'mkEq'):
         root, h, defs = HARNESS[nm]
-        use = {'mkImpl': ('mkOr',), 'mkEq': ('mkAnd', 'mkBinaryEq')}.get(nm, ())      # callees replaced by their contracts (each is proved by its own job)
-        cn = {'mkOr': 'Logic__mkOr__vec_PTRef_RR', 'mkAnd': 'Logic__mkAnd__vec_PTRef_RR', 'mkBinaryEq': 'opensmt::Logic::mkBinaryEq'}
-        J.append(bjob(nm, root, h, proves=PROVES[nm], defines=tuple(d for d in defs if not (use and d in ('C14_SORTCALL', 'C14_MAPS', 'C14_SORTS'))) + tuple('C14_USE_' + u for u in use) + (('C14_NO_SYMREF',) if nm == 'mkEq' else ()), extra_stubs=tuple(cn[u] for u in use), weight=(30 if nm in ('mkAnd', 'mkOr') else 1)))
+        use = {'mkImpl': ('mkOr',), 'mkEq': ('mkAnd', 'mkBinaryEq'), 'mkAnd': ('mkNot',), 'mkOr': ('mkNot',)}.get(nm, ())      # callees replaced by their contracts (each is proved by its own job)
+        cn = {'mkNot': 'Logic__mkNot__PTRef', 'mkOr': 'Logic__mkOr__vec_PTRef_RR', 'mkAnd': 'Logic__mkAnd__vec_PTRef_RR', 'mkBinaryEq': 'opensmt::Logic::mkBinaryEq'}
+        J.append(bjob(nm, root, h, proves=PROVES[nm], defines=tuple(d for d in defs if not (use and nm not in ('mkAnd', 'mkOr') and d in ('C14_SORTCALL', 'C14_MAPS', 'C14_SORTS'))) + tuple('C14_USE_' + u for u in use) + (('C14_NO_SYMREF',) if nm == 'mkEq' else ()), extra_stubs=tuple(cn[u] for u in use), weight=(30 if nm in ('mkAnd', 'mkOr') else 1)))
     # neg_job() (ArithLogic::mkNeg over an arena with integer denotations, contracts/C14/arith.h) is NOT registered: it does not finish within 30 min
     J.append(bjob('mkDistinct', 'opensmt::Logic::mkDistinct', H_DISTINCT, defines=('C14_SORTS', 'C14_DISTINCT', 'C14_USE_mkEq', 'C14_USE_mkAnd', 'C14_TERMSORT_SORTS'),
                   extra_stubs=('Logic__mkEq__vec_PTRef_RR', 'Logic__mkAnd__vec_PTRef_RR', 'opensmt::PtStore::lookupSymbol', 'opensmt::Logic::isBooleanOperator', 'opensmt::PtStore::hasCplxKey', 'opensmt::PtStore::getFromCplxMap',
